@@ -37,6 +37,14 @@ NAV_METHODS = {'next', 'prev', 'first_child', 'last_child', 'next_child', 'prev_
 NEW_TREE_CALLS = {'copy', 'FST', 'fromsrc', 'fromast', 'copy_ast', '_make_fst_and_dedent', 'as_'}
 
 
+# a specialisation (function, parameter = literal) that was read and found to re-assert existing values only: no effect
+REVIEWED_SPECIALISATIONS = {
+    ('_maybe_del_trailing_newline', 'put_fst_end_nl', True):
+        'called in copy mode too (`not cut`); with a true flag the deleting arm is skipped and what remains re-stores end_lineno / end_col_offset = '
+        'end of source of an _ExceptHandlers / _match_cases root, which copy mode has not changed (same review as C07 REVIEWED_CALLEES)',
+}
+
+
 class Effects:
     def __init__(self, repo: Repo, resolver: Resolver):
         self.repo = repo
@@ -367,6 +375,9 @@ class Effects:
         consts = {k: v for k, v in (consts or {}).items() if k in fi.params()}
         if not base or isinstance(fi.node, ast.Lambda):
             return set()
+        for (fname, pname, val), _why in REVIEWED_SPECIALISATIONS.items():
+            if fi.name == fname and consts.get(pname) in (('c', val), val):
+                return set()
         key = (fi.key, _ckey(consts))
         if key in self._mut_spec:
             return self._mut_spec[key]
